@@ -185,4 +185,53 @@ theorem check_lists_agree (LA LB : List PCand)
     · rintro ⟨p, hp, rfl⟩; exact (hmem p).mp hp
     · intro hx; exact ⟨Prod.swap x, (hmem (Prod.swap x)).mpr (by simpa using hx), by simp⟩
 
+/-! ### the pair that is used -/
+
+theorem best_some (role : Role) (ps : List PPair) (p : PPair) (h : best role ps = some p) :
+    p ∈ ps ∧ ∀ q ∈ ps, prio role q ≤ prio role p := by
+  unfold best at h
+  have hs := sorted_stableSort (prio role) ps
+  have hs' : SortedDesc (prio role) (sortByPriority role ps) := hs
+  cases hl : sortByPriority role ps with
+  | nil => rw [hl] at h; simp at h
+  | cons x xs =>
+    rw [hl] at h hs'
+    simp only [List.head?_cons, Option.some.injEq] at h
+    subst h
+    constructor
+    · have : x ∈ sortByPriority role ps := by rw [hl]; exact List.mem_cons_self
+      exact (mem_stableSort _ _ _).mp this
+    · intro q hq
+      have hq' : q ∈ sortByPriority role ps := (mem_stableSort _ _ _).mpr hq
+      rw [hl] at hq'
+      rcases List.mem_cons.mp hq' with rfl | hq''
+      · exact Nat.le_refl _
+      · exact (List.pairwise_cons.mp hs').1 q hq''
+
+theorem best_none (role : Role) (ps : List PPair) : best role ps = none ↔ ps = [] := by
+  unfold best
+  constructor
+  · intro h
+    cases ps with
+    | nil => rfl
+    | cons x xs =>
+      have hx : x ∈ sortByPriority role (x :: xs) := (mem_stableSort _ _ _).mpr List.mem_cons_self
+      cases hl : sortByPriority role (x :: xs) with
+      | nil => rw [hl] at hx; simp at hx
+      | cons y ys => rw [hl] at h; simp at h
+  · intro h; subst h; rfl
+
+/-- a maximum that is unique is THE result, whatever the arrival order -/
+theorem best_unique (role : Role) (ps : List PPair) (p : PPair) (hp : p ∈ ps)
+    (hmax : ∀ q ∈ ps, q ≠ p → prio role q < prio role p) : best role ps = some p := by
+  cases hb : best role ps with
+  | none => rw [(best_none role ps).mp hb] at hp; simp at hp
+  | some b =>
+    obtain ⟨hbm, hbmax⟩ := best_some role ps b hb
+    by_cases hbp : b = p
+    · rw [hbp]
+    · have h1 := hmax b hbm hbp
+      have h2 := hbmax p hp
+      omega
+
 end RtcModel.IcePairs
